@@ -1,0 +1,23 @@
+// Copyright 2018 Blues Inc.  All rights reserved.
+// Use of this source code is governed by licenses granted by the
+// copyright holder including that found in the LICENSE file.
+
+//go:build !verif
+// +build !verif
+
+package jsonata
+
+import (
+	"sync"
+
+	"github.com/blues/jsonata-go/jparse"
+)
+
+// Simulation hooks. They are empty (and inlined away) unless
+// the package is built with the "verif" build tag.
+
+func simYield(site string, obj interface{}) {}
+
+func simStep(node jparse.Node) error { return nil }
+
+func simLockWait(mu *sync.RWMutex, write bool) {}
